@@ -68,11 +68,12 @@ ApplyFills(L, fills) ==   \* Simulator._update_agents_for_execution at unit pric
 \* then holdings for the whole round, then the callbacks (owner; buyer and seller of every fill - a
 \* deterministic chain without choices, checked on recorded runs by TraceLedger), log records queued in order
 \* tgt: for a cancel, the seq of the order the agent chose when it was consulted (it may be gone by now:
-\* the cancel is still accepted, the book does not change)
+\* the cancel is still accepted, the book does not change); m is then the market of THAT order - a cancel is
+\* handled, and followed by a round, on the market its order names, whether the order still rests or not
 Accept(a, op, m, tgt) ==
   LET b1 == IF op = "cancel" THEN {o \in book : o.seq # tgt}
             ELSE book \cup {[seq |-> nextId, ag |-> a, buy |-> (op = "buy"), m |-> m]}
-      tm == IF op = "cancel" THEN (IF \E o \in book : o.seq = tgt THEN (CHOOSE o \in book : o.seq = tgt).m ELSE m) ELSE m
+      tm == m
       r == IF S.exec THEN MatchAll(b1, tm, <<>>)
            ELSE [book |-> b1, fills |-> <<>>]
       nf == Len(r.fills) IN
@@ -142,7 +143,7 @@ Consult(a, op, m) ==
   /\ cN' = [cN EXCEPT ![a] = @ + 1]
   /\ LET e == EffOp(a, op) IN
      IF e = "none" THEN UNCHANGED <<nN, coll>>
-     ELSE nN' = nN + 1 /\ coll' = Append(coll, [ag |-> a, op |-> e, m |-> m,
+     ELSE nN' = nN + 1 /\ coll' = Append(coll, [ag |-> a, op |-> e, m |-> IF e = "cancel" THEN Oldest(Own(a)).m ELSE m,
                                                    tgt |-> IF e = "cancel" THEN Oldest(Own(a)).seq ELSE -1])
   /\ UNCHANGED <<phase, s, k, clock, tickTodo, todo, inH, remH, nH, handled, cH, MarketVars, LogVars>>
 
@@ -168,7 +169,7 @@ ConsultH(h, op, m) ==
   /\ remH' = remH \ {h} /\ cH' = cH + 1
   /\ LET e == EffOp(h, op) IN
        IF e = "none" THEN UNCHANGED <<MarketVars, LogVars, nH>>
-       ELSE Accept(h, e, m, IF e = "cancel" THEN Oldest(Own(h)).seq ELSE -1) /\ nH' = nH + 1
+       ELSE Accept(h, e, IF e = "cancel" THEN Oldest(Own(h)).m ELSE m, IF e = "cancel" THEN Oldest(Own(h)).seq ELSE -1) /\ nH' = nH + 1
   /\ UNCHANGED <<phase, s, k, clock, tickTodo, remN, nN, coll, todo, inH, handled, cN>>
 
 HftDone ==
